@@ -264,3 +264,51 @@ func VerifH_C14_uniqueRepeat() {
 	}
 	verifCover("done")
 }
+
+type c14SlowWriter struct {
+	out     []byte
+	busy    bool
+	overlap bool
+	d       time.Duration
+}
+
+// a slow output (pipe to a slow consumer): every Write takes d; the bytes count as written at its end
+func (w *c14SlowWriter) Write(p []byte) (int, error) {
+	if w.busy {
+		w.overlap = true // two Write calls at the same time: the output would interleave them
+	}
+	w.busy = true
+	cp := append([]byte{}, p...)
+	time.Sleep(w.d)
+	w.out = append(w.out, cp...)
+	w.busy = false
+	return len(p), nil
+}
+
+// VerifH_C14_slowOutput: results keep arriving while the output is slow and the periodic flush comes due
+// several times (flush interval shorter than one Write): the output is still exactly one complete line
+// per result, in order, and no two writes to the output overlap.  Logical clock.
+func VerifH_C14_slowOutput() {
+	K := verifParam("K", 6)
+	gap := []time.Duration{500 * time.Microsecond, time.Millisecond, 4 * time.Millisecond}[int(verifConcretize(uint64(ndU8("gap")%3)))]
+	w := &c14SlowWriter{d: 3 * time.Millisecond}
+	lg := &logger{zapl: zap.NewNop(), label: "t", w: w, rw: &JSONResultWriter{}, flushInterval: 2 * time.Millisecond}
+	in := make(chan scan.Result, K)
+	var exp []byte
+	verifNow()
+	go func() {
+		for i := 0; i < K; i++ {
+			time.Sleep(gap)
+			in <- &c14Result{id: string(rune('a' + i)), data: []byte{'{', '"', byte('a' + i), '"', ':', '1', '}'}}
+		}
+		close(in)
+	}()
+	for i := 0; i < K; i++ {
+		exp = append(exp, '{', '"', byte('a'+i), '"', ':', '1', '}', '\n')
+	}
+	lg.LogResults(context.Background(), in)
+	time.Sleep(20 * time.Millisecond) // anything still flushing in the background has finished
+	verifAssert(!w.overlap, "two writes to the output were in progress at the same time (lines may interleave)")
+	verifAssert(string(w.out) == string(exp), "output is not exactly one complete line per result, in order, when the output is slow and flushes come due")
+	verifCover("done")
+}
